@@ -283,7 +283,14 @@ func run(c *core.Case, id string, gcHeavy bool) {
 					c.Violation(id+"|older-write-wins-or-lost|tainted:"+t, fmt.Sprintf("Get(%q) returned error %q after %s (an older duplicate with a dangling value pointer won the tie)", k.key, gerr, after), detail)
 					return false
 				}
-				c.Violation(id+"|read-error|sources="+ss+"|"+ctx, fmt.Sprintf("Get(%q) returned error %q after %s", k.key, gerr, after), detail)
+				if ctx != "" {
+					// a key with a zero-suffix sibling in the ART memtable: lookups of the two keys
+					// collide (recorded finding), also the lookup by which value-log GC decides
+					// whether a record is live - the record is dropped and the pointer dangles
+					c.Violation(id+"|wrong-read|"+ctx, fmt.Sprintf("Get(%q) returned error %q after %s", k.key, gerr, after), detail)
+					return false
+				}
+				c.Violation(id+"|read-error|sources="+ss, fmt.Sprintf("Get(%q) returned error %q after %s", k.key, gerr, after), detail)
 				return false
 			}
 			// which op did the read return?
